@@ -78,6 +78,14 @@ func runC18(c *Ctx) {
 		{Name: "descriptor-equal", What: "content.Equal(requested descriptor, signed target)", Alt: [][]string{{"T(call:oras/content.Equal(" + PD + ",alloc:ngo/internal/envelope.Payload<", ">.TargetArtifact))"}, {"T(call:oras/content.Equal(alloc:ngo/internal/envelope.Payload<", ">.TargetArtifact," + PD + "))"}}},
 		{Name: "annotations-loop-completed", What: "the preservation loop over the requested descriptor's annotations ran to completion", Subs: []string{"F(rangeok(" + PD + ".Annotations))"}},
 	})
+	// the signed payload is decoded into a fresh variable, not over the request's payload
+	for _, ci := range findCalls(ENV, "encoding/json.Unmarshal") {
+		cc := ci.(*ssa.Call)
+		if desc(cc.Call.Args[0]) == content {
+			fresh, why := freshDecodeTarget(w.Info(ENV), cc)
+			c.Check(fresh, "envelope/payload-decode-target-fresh", "the payload the plugin signed is decoded into a fresh variable: members the plugin left out are not filled in from the request before the comparison", w.InstrPos(cc), why)
+		}
+	}
 	// the request's envelope type is the caller's
 	okReq := false
 	for _, b := range ENV.Blocks {
@@ -670,13 +678,20 @@ func phiHas(ph *ssa.Phi, v ssa.Value) bool {
 func c18Primitive(c *Ctx) {
 	w := c.W
 	n := 0
+	// the primitive signer type: the receiver of the function that calls SignPlugin.GenerateSignature
+	primT := "?"
+	for _, fn := range w.FuncsOfPkg("signer") {
+		if fn.Signature.Recv() != nil && len(findCalls(fn, "invoke:pfw/plugin.SignPlugin.GenerateSignature")) > 0 {
+			primT = namedOf(fn.Signature.Recv().Type())
+		}
+	}
 	for _, fn := range w.FuncsOfPkg("signer") {
 		flds := map[string]string{}
 		var al ssa.Instruction
 		for _, b := range fn.Blocks {
 			for _, in := range b.Instrs {
 				if st, ok := in.(*ssa.Store); ok {
-					if fa, ok := st.Addr.(*ssa.FieldAddr); ok && namedOf(fa.X.Type()) == "ngo/signer.pluginPrimitiveSigner" {
+					if fa, ok := st.Addr.(*ssa.FieldAddr); ok && namedOf(fa.X.Type()) == primT {
 						flds[fieldName(fa.X.Type(), fa.Field)] = desc(st.Val)
 						al = st
 					}
